@@ -214,7 +214,7 @@ def check(sc):
     tr = driver.run_world(sc, observe=0, setup=setup)
     out = base_outcome(tr, extra_sig=[kind, p.get("sort"), p.get("continuous_inc")])
     out.viol = pre.viol
-    out.probes = pre.probes
+    out.probes = dict(out.probes, **pre.probes)
     if sc.get("near_tie"):
         out.probe("near_tie_world")
     completion(tr, out, "C08", required=False)
